@@ -732,6 +732,8 @@ pub fn run_c07(tier: &str) -> Outcome {
         vec![
             Cfg { n: 2, cap: 3, depth: 3, wall: Duration::from_secs(40), labels: vec![0, 1, 2] },
             Cfg { n: 1, cap: 1, depth: 3, wall: Duration::from_secs(15), labels: vec![0, 1] },
+            // a big capacity that is no power of two, an edge capacity that is none either
+            Cfg { n: 7, cap: 1500, depth: 2, wall: Duration::from_secs(30), labels: vec![0, 1] },
         ]
     } else {
         vec![
@@ -739,6 +741,9 @@ pub fn run_c07(tier: &str) -> Outcome {
             Cfg { n: 1, cap: 1, depth: 6, wall: Duration::from_secs(600), labels: vec![0, 1] },
             Cfg { n: 3, cap: 5, depth: 3, wall: Duration::from_secs(900), labels: vec![0, 1, 2, 3] },
             Cfg { n: 16, cap: 17, depth: 3, wall: Duration::from_secs(900), labels: vec![0, 1] },
+            Cfg { n: 7, cap: 1500, depth: 3, wall: Duration::from_secs(900), labels: vec![0, 1] },
+            Cfg { n: 2, cap: 1025, depth: 2, wall: Duration::from_secs(600), labels: vec![0, 1] },
+            Cfg { n: 3, cap: 100, depth: 3, wall: Duration::from_secs(600), labels: vec![0, 1] },
         ]
     };
     let mut total = RunOut::default();
